@@ -189,7 +189,8 @@ def run(ck):
                        ok_detail="cleared on every path to the next rendering")
     # ---- R2 ------------------------------------------------------------------------------------------
     hw = [(bb, t) for bb, t in wr.calls() if (callee_of(t).get("rpath") or "").endswith("UnifiedPatchHunkWriter>::write_to")]
-    ck.floor("C13-R2", "hunk writer calls in write_rej_to", len(hw), 1)
+    ncomb = r2_combinator_form(ck, wr)
+    ck.floor("C13-R2", "hunk writer calls in write_rej_to", len(hw) + ncomb, 1)
     sws = pt.discr_switches(wr, lambda e, rv: (rv.get("adt") or "").endswith("HunkApplyReport"))
     for bb, t in hw:
         good = False
@@ -281,10 +282,54 @@ def run(ck):
     full = ck.anchor("FilePatch<'a, &'a [u8]> as libpatch::patch::unified::writer::UnifiedPatchWriter>::write_to")
     if full is not None:
         def writers(fn):
-            return {c["rpath"] for bb, t in fn.calls() for c in [callee_of(t)]
+            return {c["rpath"] for f_ in [fn] + prog.closures_of(fn) for bb, t in f_.calls() for c in [callee_of(t)]
                     if (c.get("rpath") or "").endswith("write_file_patch_header_to") or (c.get("rpath") or "").endswith("UnifiedPatchHunkWriter>::write_to")}
         ck.require(writers(wr) == writers(full) and len(writers(wr)) == 2, "C13-R5", "reject uses the patch writer's header and hunk writers",
                    "write_rej_to uses %s, write_to uses %s" % (sorted(writers(wr)), sorted(writers(full))), wr.where())
+
+
+def r2_combinator_form(ck, wr):
+    """zip(hunks, reports).filter(|(_, r)| matches!(r, Failed(..))).try_for_each(|(hunk, _)| hunk.write_to(w)): the hunk written is
+    field 0 of the pair, the filter lets a pair through only on the Failed discriminant of its field 1.  Returns the number of hunk
+    writer calls found in such closures."""
+    prog = ck.prog
+    n = 0
+    for bb, t in wr.calls():
+        last = (callee_of(t).get("path") or "").split("::")[-1]
+        if wr.blocks[bb]["cleanup"] or last not in ("try_for_each", "for_each") or len(t["args"]) != 2:
+            continue
+        body = df.operand_expr(wr, t["args"][1])
+        cl = prog.fns.get(body[1]) if isinstance(body, tuple) and body and body[0] == "closure" else None
+        if cl is None:
+            continue
+        hws = [(b2, t2) for b2, t2 in cl.calls() if (callee_of(t2).get("rpath") or "").endswith("UnifiedPatchHunkWriter>::write_to")]
+        if not hws:
+            continue
+        recv = df.operand_expr(wr, t["args"][0])
+        inst = "only hunks whose own report is Failed are written"
+        for b2, t2 in hws:
+            n += 1
+            hunk_e = df.operand_expr(cl, t2["args"][0])
+            # the item is the closure's second parameter (a pair); the hunk is its field 0
+            item0 = isinstance(hunk_e, tuple) and hunk_e[0] == "field" and hunk_e[2] == 0 and isinstance(hunk_e[1], tuple) and \
+                hunk_e[1][0] == "param" and hunk_e[1][1] == 2
+            flt = recv if df.is_call(recv, "Iterator::filter") else None
+            ok_filter = False
+            if flt is not None and len(flt[2]) == 2 and isinstance(flt[2][1], tuple) and flt[2][1][0] == "closure" and flt[2][1][1] in prog.fns and \
+                    df.is_call(flt[2][0], "Iterator::zip"):
+                pf = prog.fns[flt[2][1][1]]
+                sws = pt.discr_switches(pf, lambda e, rv: (rv.get("adt") or "").endswith("HunkApplyReport"))
+                on_item1 = [sw for sw in sws if df.mentions(sw["expr"], lambda x: isinstance(x, tuple) and x[0] == "field" and x[2] == 1 and
+                                                            df.mentions(x[1], lambda y: isinstance(y, tuple) and y[0] == "param" and y[1] == 2))]
+                trues = [b3 for b3, i3, s3 in pf.stmts() if s3["k"] == "assign" and s3["lhs"]["l"] == 0 and "p" not in s3["lhs"] and
+                         df.rvalue_expr(pf, s3["rv"]) != ("const", 0, "bool")]
+                ok_filter = bool(on_item1) and bool(trues) and all(
+                    any(sw["edges"].get("Failed") and b3 in cfg.dominated_by_edge(pf, sw["edges"]["Failed"]) for sw in on_item1) for b3 in trues)
+            ck.require(item0 and ok_filter, "C13-R2", inst,
+                       "the hunk writer runs in a %s closure over %s: not `zip(hunks, reports).filter(report is Failed)` with the hunk taken from "
+                       "field 0 of the pair" % (last, df.show(recv, 100)), cl.where(t2),
+                       ok_detail="zip(..).filter(|(_, r)| r is Failed).%s(|(hunk, _)| write)" % last)
+    return n
 
 
 def strict_parallel(ck, apply_worker):
